@@ -60,6 +60,53 @@ def key_variants(net, array_type, rng):
 	return variants
 
 
+def stateful_scenario(check, net, host, field, array_type, value, variants):
+	"""sort(), serialize(), then overwrite the key members of one entry in place with those of another variant, then sort() and serialize() again:
+	the second sort must order by the CURRENT keys and serialize must accept exactly strictly ascending current keys."""
+	rng = check.rng
+	try:
+		obj = codec.to_object(net, host.name, value)
+	except codec.Inadmissible:
+		return
+	limited(obj.sort)
+	limited(lambda: bytes(obj.serialize()))
+	entries = getattr(obj, '_' + codec.fix_name(field.name))
+	if len(entries) < 2:
+		return
+	victim = entries[rng.randrange(len(entries))]
+	donor = codec.to_object(net, array_type.element_type, rng.choice(variants))
+	key_name = '_' + codec.fix_name(array_type.sort_key)
+	key_object = getattr(victim, key_name)
+	donor_key = getattr(donor, key_name)
+	if hasattr(key_object, 'TYPE_HINTS') or hasattr(key_object, '__dict__') and not hasattr(key_object, 'value') and not hasattr(key_object, 'bytes'):
+		# struct-typed key: overwrite its members one by one through the public setters (what a user editing a transaction does)
+		# ONE member at a time (a cache invalidated by one setter but not by another is only visible that way)
+		names = [name[1:] for name in vars(donor_key) if name.startswith('_') and not name.startswith('__') and hasattr(type(key_object), name[1:])]
+		if names:
+			name = rng.choice(names)
+			try:
+				setattr(key_object, name, getattr(donor_key, name))
+			except AttributeError:
+				pass
+	else:
+		setattr(victim, key_name[1:], donor_key)
+	check.case(f'{net.name}:{host.name}.{field.name}:stateful', (host.name, codec.render(value), codec.render(codec.from_object(net, array_type.element_type, donor))))
+	result = limited(lambda: (obj.sort(), codec.from_object(net, host.name, obj))[1])
+	if result[0] != 'ok':
+		return
+	after = dict(result[1][2])[field.name]
+	keys = [codec.sort_key_of(net, array_type, e) for e in after]
+	ascending = all(a < b for a, b in zip(keys, keys[1:]))
+	nondescending = all(a <= b for a, b in zip(keys, keys[1:]))
+	serialized = limited(lambda: bytes(obj.serialize()))
+	if not nondescending or (serialized[0] == 'ok') != ascending:
+		check.fail(signature('stateful-sort', host.name, codec.render(after)),
+			f'{net.name}.{host.name}.{field.name}: after editing an entry\'s key in place, sort() leaves keys '
+			f'{"ascending" if nondescending else "OUT OF ORDER"} and serialize {"accepts" if serialized[0] == "ok" else "refuses"} them '
+			f'(strictly ascending by the declared comparer: {ascending})',
+			{'network': net.name, 'class': host.name, 'member': field.name, 'after_second_sort': codec.render(after)})
+
+
 def signature(kind, name, payload):
 	return f'{kind}:{name}:' + hashlib.sha256(repr(payload).encode('utf8')).hexdigest()[:12]
 
@@ -112,6 +159,9 @@ def run_array(check, net, host, field, exprs, expected, meta):
 					check.fail(signature('sort-not-idempotent', host.name, codec.render(ordered)),
 						f'{net.name}.{host.name}.{field.name}: a second sort() changes the array',
 						{'network': net.name, 'class': host.name, 'member': field.name, 'entries': codec.render(ordered)})
+				# stateful use: change one entry's key IN PLACE after a sort and sort / serialize again (stale cached keys, stale order)
+				if len(ordered) >= 2:
+					stateful_scenario(check, net, host, field, array_type, value, variants)
 			else:
 				text = fmt(sort_result, str)
 			exprs.append(f'case_sort {net.coq_schema} "{host.name}" "{field.name}" [{"; ".join(codec.coq_value(e) for e in ordered)}]')
